@@ -46,7 +46,10 @@ def main(argv):
                 continue
             if only and m["id"] not in only and chk not in only:
                 continue
-            r = run_one(m, chk, runs, wall)
+            try:
+                r = run_one(m, chk, runs, wall)
+            except Exception as e:
+                r = {"mutant": m["id"], "what": m["what"], "check": chk, "exit": -1, "detected": False, "first": ["", "ERROR %s" % e], "wall_s": 0}
             results.append(r)
             print("%-4s %-4s %s  %s  (%.0fs)" % (r["mutant"], r["check"], "DETECTED" if r["detected"] else "MISSED(exit %d)" % r["exit"], (r["first"][1].strip()[:110] if len(r["first"]) > 1 else ""), r["wall_s"]), flush=True)
     if not only:
